@@ -248,14 +248,14 @@ type c08Run_ struct {
 	Ops     string       `json:"ops"`
 	I, J    int          // ops[:I] middleware before Next, ops[I:J] main handler, ops[J:] middleware after Next
 	Answers map[int]byte `json:"answers,omitempty"`
-	Redisp  bool         `json:"redispatch,omitempty"`                // the main handler ends by re-dispatching the request with HandleContext
-	K       int          `json:"k,omitempty"`                         // K>0: ops[K:] run in the router's OnError hook (the main handler records an error)
-	RF      bool         `json:"reader_from,omitempty"`               // the underlying writer also implements io.ReaderFrom
-	Nested  bool         `json:"nested_router,omitempty"`             // the main handler hands the request to a second rux router, whose handler performs the main operations
-	Hj      bool         `json:"after_hijacked_request,omitempty"`    // the router served a request whose handler hijacked its connection right before
-	WS      bool         `json:"websocket_upgrade_headers,omitempty"` // the request carries "Connection: upgrade" and "Upgrade: websocket" (no upgrade takes place)
-	Pn      bool         `json:"panic_then_hook_writes,omitempty"`    // the main handler panics at its end; the router's OnPanic hook writes "H"
-	Head    bool         `json:"head_request_on_get_route,omitempty"` // the request is a HEAD request, served by the GET-only route
+	Redisp  bool         `json:"redispatch,omitempty"`                                 // the main handler ends by re-dispatching the request with HandleContext
+	K       int          `json:"k,omitempty"`                                          // K>0: ops[K:] run in the router's OnError hook (the main handler records an error)
+	RF      bool         `json:"reader_from,omitempty"`                                // the underlying writer also implements io.ReaderFrom
+	Nested  bool         `json:"nested_router,omitempty"`                              // the main handler hands the request to a second rux router, whose handler performs the main operations
+	Hj      bool         `json:"after_hijacked_request,omitempty"`                     // the router served a request whose handler hijacked its connection right before
+	WS      bool         `json:"websocket_upgrade_headers,omitempty"`                  // the request carries "Connection: upgrade" and "Upgrade: websocket" (no upgrade takes place)
+	Pn      bool         `json:"panic_then_hook_writes,omitempty"`                     // the main handler panics at its end; the router's OnPanic hook writes "H"
+	Head    bool         `json:"head_request_on_get_route,omitempty"`                  // the request is a HEAD request, served by the GET-only route
 	Direct  bool         `json:"caller_owned_context_through_HandleContext,omitempty"` // the caller builds a Context itself (Init) and hands it to Router.HandleContext
 }
 
